@@ -11,50 +11,51 @@ open RV
     it never panics. -/
 theorem new_ok_iff (H : Hash) (plain secret ra : Bytes) :
     (∃ c, newUserPassword H plain secret ra = .ok c) ↔
-      plain.length ≤ 128 ∧ secret ≠ [] ∧ ra.length = 16 := by
-  sorry
+      plain.length ≤ 128 ∧ secret ≠ [] ∧ ra.length = 16 :=
+  newUserPassword_ok_iff H plain secret ra
 
 theorem new_never_faults (H : Hash) (plain secret ra : Bytes) :
-    newUserPassword H plain secret ra ≠ .fault := by
-  sorry
+    newUserPassword H plain secret ra ≠ .fault :=
+  newUserPassword_ne_fault H plain secret ra
 
 /-- The result is exactly the RFC 2865 §5.2 ciphertext: block i is the zero-padded plaintext block
     xor H(secret ‖ previous ciphertext block), the authenticator for the first. -/
 theorem new_eq_rfc (H : Hash) (hH : ∀ x, (H x).length = 16) (plain secret ra c : Bytes)
     (h : newUserPassword H plain secret ra = .ok c) :
-    c = Rfc2865.userPasswordCipher H plain secret ra := by
-  sorry
+    c = Rfc2865.userPasswordCipher H plain secret ra :=
+  newUserPassword_eq_rfc H hH plain secret ra c h
 
 /-- length 16 * max(1, ceil(n/16)) -/
 theorem new_length (H : Hash) (hH : ∀ x, (H x).length = 16) (plain secret ra c : Bytes)
     (h : newUserPassword H plain secret ra = .ok c) :
     c.length = 16 * max 1 ((plain.length + 15) / 16) := by
-  sorry
+  rw [newUserPassword_eq_rfc H hH plain secret ra c h]
+  exact userPasswordCipher_length H hH plain secret ra
 
 /-- UserPassword accepts exactly the ciphertext lengths 16, 32, …, 128 (with a non-empty secret and
     a 16-byte authenticator) and never panics. -/
 theorem user_ok_iff (H : Hash) (a secret ra : Bytes) :
     (∃ p, userPassword H a secret ra = .ok p) ↔
-      16 ≤ a.length ∧ a.length ≤ 128 ∧ a.length % 16 = 0 ∧ secret ≠ [] ∧ ra.length = 16 := by
-  sorry
+      16 ≤ a.length ∧ a.length ≤ 128 ∧ a.length % 16 = 0 ∧ secret ≠ [] ∧ ra.length = 16 :=
+  userPassword_ok_iff H a secret ra
 
-theorem user_never_faults (H : Hash) (a secret ra : Bytes) : userPassword H a secret ra ≠ .fault := by
-  sorry
+theorem user_never_faults (H : Hash) (a secret ra : Bytes) : userPassword H a secret ra ≠ .fault :=
+  userPassword_ne_fault H a secret ra
 
 /-- Round trip: with the same secret and authenticator the plaintext comes back up to its first NUL. -/
 theorem roundtrip (H : Hash) (hH : ∀ x, (H x).length = 16) (plain secret ra c : Bytes)
     (h : newUserPassword H plain secret ra = .ok c) :
-    userPassword H c secret ra = .ok (plain.takeWhile (· ≠ 0)) := by
-  sorry
+    userPassword H c secret ra = .ok (plain.takeWhile (· ≠ 0)) :=
+  userPassword_roundtrip H hH plain secret ra c h
 
 /-- … all of it when it is NUL-free. -/
 theorem roundtrip_nulfree (H : Hash) (hH : ∀ x, (H x).length = 16) (plain secret ra c : Bytes)
     (hn : ∀ x ∈ plain, x ≠ 0) (h : newUserPassword H plain secret ra = .ok c) :
     userPassword H c secret ra = .ok plain := by
-  sorry
+  rw [userPassword_roundtrip H hH plain secret ra c h, takeWhile_nulfree plain hn]
 
 /-! Non-vacuity (test): the hypotheses are satisfiable. -/
 example : ∃ c, newUserPassword (fun _ => zeros 16) [1, 2, 3] [9] (zeros 16) = .ok c := by
-  sorry
+  exact (newUserPassword_ok_iff _ _ _ _).mpr ⟨by decide, by decide, by decide⟩
 
 end RV.C04
